@@ -254,7 +254,11 @@ theorem table_ok : ∀ p ∈ Gen.tsToJs, p.2 ∈ jsExts ∧ p.1 ∈ tsExtsFor p.
 
 /-- For every file name that ends in one of the table's TypeScript extensions (any stem, any length), the
     name `path_to_ts` writes into the import specifier is one for which TypeScript's module resolution tries
-    the original file: the specifier lands on the schema declaration file. -/
+    the original file.  This is a statement about the file NAME and about the models `pathToTs` (the loop of
+    `path_to_ts`, not compared function-for-function with the code) and `tsCandidates` (TypeScript's lookup,
+    restated from the handbook, an assumption); that the whole specifier — `relative_path` for the directory part
+    composed with `path_to_ts` — lands on the schema declaration file is not a theorem and is checked only
+    through the real CLI by the layout stream of `harness/src/bin/c20.rs`. -/
 theorem path_to_ts_resolves (name : List Char) (h : ∃ p ∈ Gen.tsToJs, ∃ stem, name = stem ++ p.1) :
     name ∈ tsCandidates (pathToTs name) := by
   obtain ⟨p, hp, stem, hn, hr⟩ := pathToTsWith_spec Gen.tsToJs name h
